@@ -52,3 +52,35 @@ Theorem C05_block_reader_positions_in_range : forall r, BInv r -> b_in_range r =
   0 <= s_start (b_pos r) <= s_stop (b_pos r) /\ s_stop (b_pos r) <= zlen (b_src r).
 Proof. exact b_inv_in_range. Qed.
 Print Assumptions C05_block_reader_positions_in_range.
+
+(* (P, continued) the positions reported by the modelled block scanners lie inside the line they
+   were given: list marker indices, ATX heading text, fence info string, fence content and
+   closing advance, delimiter-run length *)
+Require Import GM.model.Blocks GM.model.ListItem GM.model.LeafBlocks GM.model.Delim GM.gen.Tables GM.proofs.BlockRangeProofs.
+Theorem C05_parse_list_item_in_range : forall line m typ, parse_list_item line = (m, typ) -> typ <> 0%N ->
+  0 <= m1 m <= 3 /\ m2 m = m1 m /\ m1 m < m3 m <= zlen line /\
+  ((m4 m = -1 /\ m5 m = -1 /\ m3 m = zlen line) \/ (m4 m = m3 m /\ m3 m < zlen line /\ m4 m <= m5 m <= zlen line)).
+Proof. exact parse_list_item_in_range. Qed.
+Print Assumptions C05_parse_list_item_in_range.
+Theorem C05_atx_open_in_range : forall line pos lv a b,
+  atx_open space_table line pos = Ok (Some (lv, Some (a, b))) -> 1 <= lv <= 6 /\ pos < a /\ a < b /\ b <= zlen line.
+Proof. exact (atx_open_in_range space_table). Qed.
+Print Assumptions C05_atx_open_in_range.
+Theorem C05_fence_open_in_range : forall line pos ch ind n info, 0 <= pos ->
+  fence_open space_table line pos = Ok (Some (ch, ind, n, info)) ->
+  (ch = 96%N \/ ch = 126%N) /\ ind = pos /\ 3 <= n /\ pos + n <= zlen line /\
+  match info with Some (a, b) => pos + n <= a /\ a < b /\ b <= zlen line | None => True end.
+Proof. exact (fence_open_in_range space_table). Qed.
+Print Assumptions C05_fence_open_in_range.
+Theorem C05_fence_continue_in_range : forall line off pad ch indent flen, 0 <= off -> 0 <= pad -> 0 <= indent ->
+  match fence_continue space_table line off pad ch indent flen with
+  | inl adv => 0 <= adv <= zlen line
+  | inr (p, padding) => 0 <= p + pad /\ p <= zlen line /\ 0 <= padding
+  end.
+Proof. exact (fence_continue_in_range space_table). Qed.
+Print Assumptions C05_fence_continue_in_range.
+Theorem C05_scan_delimiter_in_range : forall pr sr isd line before minimum co cc len ch,
+  scan_delimiter pr sr isd line before minimum = Ok (Some (co, cc, len, ch)) ->
+  1 <= len <= zlen line /\ minimum <= len /\ isd ch = true.
+Proof. exact scan_delimiter_in_range. Qed.
+Print Assumptions C05_scan_delimiter_in_range.
